@@ -1,5 +1,6 @@
 """Programs as data + one interpreter that drives either the real FileBuilder or
 the reference model (same API).  See DESIGN.md 1.1."""
+import copy
 import hashlib
 import json
 import os
@@ -305,6 +306,11 @@ def run_body(ctx, fr, body, acc):
 EXT = {}
 
 
+def MUTATE(ctx, value, how, edge):
+    from .mutstmts import mutate
+    return mutate(ctx, value, how, edge)
+
+
 def run_par(ctx, fr, bodies, acc):
     results = [None] * len(bodies)
     errors = [None] * len(bodies)
@@ -371,8 +377,8 @@ def check_received(ctx, fname, sent_args, sent_kwargs, args, kwargs):
 def call_bf(ctx, fr, s):
     _, r, fname, o = s
     fdef = ctx.program['funcs'][fname]
-    sent_args = o.get('args', [])
-    sent_kwargs = o.get('kwargs', {})
+    sent_args = copy.deepcopy(o.get('args', []))
+    sent_kwargs = copy.deepcopy(o.get('kwargs', {}))
     target_abs = ctx.ap(r)
 
     def fn(b2, filename, *args, **kwargs):
@@ -413,7 +419,9 @@ def call_bf(ctx, fr, s):
     if ctx.real:
         peek_after_bf(ctx, target_abs, True, None)
     with ctx.lock:
-        ctx.rets.append(('bf', os.path.abspath(target_abs), ret))
+        ctx.rets.append(('bf', os.path.abspath(target_abs), copy.deepcopy(ret)))
+    if o.get('mut_after'):
+        MUTATE(ctx, (sent_args, sent_kwargs), o['mut_after'], 'caller-args')
     if o.get('keep'):
         fr.vals[o['keep']] = ret
     return ['ok', ret]
@@ -453,8 +461,8 @@ def note_exception(ctx, e):
 def call_sb(ctx, fr, s):
     _, fname, o = s
     fdef = ctx.program['funcs'][fname]
-    sent_args = o.get('args', [])
-    sent_kwargs = o.get('kwargs', {})
+    sent_args = copy.deepcopy(o.get('args', []))
+    sent_kwargs = copy.deepcopy(o.get('kwargs', {}))
 
     def fn(b2, *args, **kwargs):
         key = ('sb', canon([fname, list(args), kwargs]))
@@ -478,9 +486,12 @@ def call_sb(ctx, fr, s):
         return ['exc', errname(e)]
     with ctx.lock:
         try:
-            ctx.rets.append(('sb', canon([fname, roundtrip(list(sent_args)), roundtrip(sent_kwargs)]), ret))
+            ctx.rets.append(('sb', canon([fname, roundtrip(list(sent_args)), roundtrip(sent_kwargs)]),
+                             copy.deepcopy(ret)))
         except TypeError:
             pass
+    if o.get('mut_after'):
+        MUTATE(ctx, (sent_args, sent_kwargs), o['mut_after'], 'caller-args')
     if o.get('keep'):
         fr.vals[o['keep']] = ret
     return ['ok', ret]
